@@ -103,6 +103,25 @@ def gen_itp(rng, tier, rich, big=None):
         edges = [e for e in edges if rng.random() < 0.8]
     elif c < 0.55 and n >= 3:    # cyclic
         edges = gen.add_cycles(rng, n, edges, rng.randint(1, 4))
+    elif c < 0.7 and n >= 4 and not big:
+        # several components, some of them with cycles (so the bond count says nothing about connectivity: a triangle
+        # plus a pair has n-1 bonds, no isolated atom, and is not connected)
+        labels = list(range(n))
+        if rng.random() < 0.6:
+            rng.shuffle(labels)
+        k = rng.randint(2, min(4, n // 2))
+        cuts_c = sorted(rng.sample(range(1, n), k - 1))
+        comps = [labels[a:b] for a, b in zip([0] + cuts_c, cuts_c + [n])]
+        edges = []
+        extra_left = rng.choice([k - 1, k - 1, rng.randint(0, 4)])
+        for comp in comps:
+            sub = gen.random_tree(rng, len(comp))
+            if len(comp) >= 3 and extra_left > 0:
+                e = rng.randint(1, extra_left)
+                before = len(sub)
+                sub = gen.add_cycles(rng, len(comp), sub, e)
+                extra_left -= len(sub) - before
+            edges += [(comp[i], comp[j]) for i, j in sub]
     # atom numbering: increasing with gaps
     nr = []
     cur = rng.choice([1, 1, 1, rng.randint(2, 50)])
